@@ -5,9 +5,12 @@
 //!
 //! `ops` holds the lines fed to the Lean model driver, `impl` the implementation's answer to each line, `oracle`
 //! the implementation-vs-reference failures found by the harness itself (independent of the model).
+mod asm;
+mod eng;
 mod out;
 mod rng;
 mod suite_c;
+mod suite_e;
 mod suite_f;
 mod suite_p;
 mod suite_t;
@@ -37,6 +40,7 @@ fn main() {
             let lines = match suite.as_str() {
                 "T" => suite_t::gen(&mut rng, &suite_t::Params { cases, max_ops }),
                 "C" => suite_c::gen(&mut rng, &suite_c::Params { cases }),
+                "E" => suite_e::gen(&mut rng, &suite_e::Params { cases, max_ops }),
                 "F" => suite_f::gen(&mut rng, &suite_f::Params { cases }),
                 "P" => suite_p::gen(&mut rng, &suite_p::Params { cases, big: max_ops }),
                 _ => {
@@ -61,6 +65,7 @@ fn main() {
                 "C" => suite_c::exec(&lines, &mut out),
                 "P" => suite_p::exec(&lines, &mut out),
                 "F" => suite_f::exec(&lines, &mut out, &scratch),
+                "E" => suite_e::exec(&lines, &mut out, &scratch),
                 _ => {
                     eprintln!("unknown suite {}", suite);
                     std::process::exit(2);
